@@ -16,7 +16,7 @@ PROP_ID = "C17"
 SOURCES = ["src/ampform/helicity/__init__.py", "src/ampform/helicity/naming.py"]
 PROP_MODULES = ["Ampverif.Props.C17"]
 
-N_SYNTH = {"quick": 40, "thorough": 500}
+N_SYNTH = {"quick": 32, "thorough": 500}
 SEQ_PER_REAL = {"quick": 6, "thorough": 40}
 SEQ_PER_SYNTH = {"quick": 4, "thorough": 8}
 NUMERIC_PER_REAL = {"quick": 2, "thorough": 10}
@@ -181,6 +181,7 @@ class C17Property:
         if not all(variant.values()):
             chk.broken_correspondence("variant", f"the code implements the unsound variant {variant}: the theorems (stated for the sound variant) do not apply")
         found += wfound
+        chk.info("finding_F1_repaired_in_source", variant_f1)
         variant = dict(variant, unifiesFresh=variant_f1)
         self._f1_repaired = variant_f1
 
